@@ -10,8 +10,8 @@ vars == <<kind, series, exper, emitted>>
 Gens == [solved : BOOLEAN, fit : Fits, age : {1, 4}, div : Divs]
 \* the remaining fields are tied to the free ones to keep the scope small
 Fill(g) == IF g.solved THEN [solved |-> TRUE, fit |-> g.fit, age |-> g.age, div |-> g.div, cplx |-> 5 + g.age,
-                             wn |-> 2 + g.fit, wg |-> g.age, we |-> 10 * g.div + g.fit]
-           ELSE [solved |-> FALSE, fit |-> g.fit, age |-> g.age, div |-> g.div, cplx |-> 4 + g.fit, wn |-> 0, wg |-> 0, we |-> 0]
+                             wn |-> 4 + g.fit, wg |-> g.age, we |-> 10 * g.div + g.fit + 2]
+           ELSE [solved |-> FALSE, fit |-> g.fit, age |-> g.age, div |-> g.div, cplx |-> 6 + g.fit, wn |-> 0, wg |-> 0, we |-> 0]
 TrialsSet == UNION { [1..n -> Gens] : n \in 0..MaxGens }
 Init == \/ /\ kind = "empty" /\ series = <<>> /\ exper = <<>> /\ emitted = FALSE
         \/ /\ kind = "series" /\ series \in UNION { [1..n -> Vals] : n \in 1..MaxLen } /\ exper = <<>> /\ emitted = FALSE
@@ -26,6 +26,7 @@ Next == Emit
 Spec == Init /\ [][Next]_vars
 
 ThoroughVals == {-3, 0, 1, 2, 5}
+MixedFits == {-2, 0, 2}     \* champion fitness: negative, zero and positive (cost-like fitness functions are in scope)
 SeriesLaws == kind = "series" => Laws(series)
 SeriesPermutationInvariant == (kind = "series" /\ Len(series) <= 4) => PermutationInvariant(series)
 ExperLaws == kind = "exper" =>
